@@ -179,3 +179,8 @@ impl From<Span> for CorrelatedSpan {
         CorrelatedSpan::Contiguous(span)
     }
 }
+
+#[cfg(all(kani, olson_sean_k_wax_verif))]
+mod verif_kani {
+    include!(concat!(env!("WAX_VERIF_DIR"), "/kani/diagnostics.rs"));
+}
